@@ -255,10 +255,19 @@ fn check_tree(sub: &str, sig: &str, src: &str, expected: &Ast) -> Outcome {
         Ok(Ok(t)) => {
             let got = normalise(&t);
             if got.same(expected) {
-                Ok(())
-            } else {
-                fail(format!("C06/{}: {} read differently", sub, sig), expected.sexp(), got.sexp(), src_case(sub, src), src.len())
+                return Ok(());
             }
+            // The tree is only a means here: C06 is about what the literals denote. A tree of another
+            // shape (C02's business, e.g. constants folded at build time) is accepted when the source
+            // evaluates to exactly the value of the expected reading.
+            let mut empty = refmodel::interp::Ctx::hashmap();
+            let (want, _, _) = refmodel::interp::run(&expected.strip_parens(), &mut empty, true, crate::matrix::unit());
+            if let (Ok(w), Ok(Ok(v))) = (&want, eval(src)) {
+                if v.same(w) {
+                    return Ok(());
+                }
+            }
+            fail(format!("C06/{}: {} read differently", sub, sig), expected.sexp(), got.sexp(), src_case(sub, src), src.len())
         },
     }
 }
